@@ -11,8 +11,10 @@ import time
 import traceback
 
 VERIF = os.path.dirname(os.path.dirname(os.path.abspath(__file__)))
-EVIDENCE_DIR = os.path.join(VERIF, "evidence")
-REPLAY_DIR = os.path.join(VERIF, "replays")
+# the two overrides are for maintenance tools (mc.seedrun: runs against a patched scratch tree must not
+# overwrite the evidence of /repo); registered commands never set them
+EVIDENCE_DIR = os.environ.get("VERIF_EVIDENCE_DIR") or os.path.join(VERIF, "evidence")
+REPLAY_DIR = os.environ.get("VERIF_REPLAY_DIR") or os.path.join(VERIF, "replays")
 KNOWN = os.path.join(VERIF, "known_findings.jsonl")
 NCPU = int(os.environ.get("VERIF_JOBS", os.cpu_count() or 4))
 
